@@ -27,7 +27,7 @@ func runC08(c *fw.Ctx) {
 	}
 	c.Cases("pinned", len(pins), true, func(i int, r *rng.R) { c08Case(c, r, pins[i], muts) })
 	c.Cases("trees", c.N(1000, 400000), false, func(i int, r *rng.R) {
-		t := spec.GenTree(r, spec.Opts{MaxDepth: r.Range(1, 6), MaxWidth: r.Range(1, 5), SafeKeys: r.Bool(), ScalarBias: r.Range(3, 7)})
+		t := spec.GenTree(r, spec.Opts{MaxDepth: r.Range(1, 6), MaxWidth: r.Range(1, 5), SafeKeys: r.Bool(), ScalarBias: r.Range(3, 7), Wide: true})
 		c08Case(c, r, t, muts)
 	})
 }
